@@ -626,7 +626,6 @@ pointwise_matrix(const crs<value_type, col_type, ptr_type> &A, unsigned block_si
                     while(beg < end) {
                         col_type c = A.col[beg];
                         S v = math::norm(A.val[beg]);
-                        ++beg;
 
                         if (c >= col_end) {
                             if (done) {
@@ -638,6 +637,8 @@ pointwise_matrix(const crs<value_type, col_type, ptr_type> &A, unsigned block_si
 
                             break;
                         }
+
+                        ++beg;
 
 
                         if (first) {
